@@ -502,6 +502,48 @@ theorem calendarReforming_eq (r : Int) : calendarReforming r = Chk.mkReforming r
               · cases kd <;> simp <;> (repeat' split) <;> simp_all
   · simp [hi]
 
+/-! ### `TryFrom<integer> for Month` / `for Weekday` (twelve impls each, from one macro) -/
+
+theorem monthTryFromI8_eq : monthTryFromI8 = Month.ofInt? := rfl
+theorem monthTryFromI16_eq : monthTryFromI16 = Month.ofInt? := rfl
+theorem monthTryFromI32_eq : monthTryFromI32 = Month.ofInt? := rfl
+theorem monthTryFromI64_eq : monthTryFromI64 = Month.ofInt? := rfl
+theorem monthTryFromI128_eq : monthTryFromI128 = Month.ofInt? := rfl
+theorem monthTryFromIsize_eq : monthTryFromIsize = Month.ofInt? := rfl
+theorem monthTryFromU8_eq : monthTryFromU8 = Month.ofInt? := rfl
+theorem monthTryFromU16_eq : monthTryFromU16 = Month.ofInt? := rfl
+theorem monthTryFromU32_eq : monthTryFromU32 = Month.ofInt? := rfl
+theorem monthTryFromU64_eq : monthTryFromU64 = Month.ofInt? := rfl
+theorem monthTryFromU128_eq : monthTryFromU128 = Month.ofInt? := rfl
+theorem monthTryFromUsize_eq : monthTryFromUsize = Month.ofInt? := rfl
+
+theorem weekday_ofInt_none (v : Int) (h : ¬(-2147483648 ≤ v ∧ v ≤ 2147483647)) : Weekday.ofInt? v = none := by
+  unfold Weekday.ofInt?
+  split <;> first | rfl | (exfalso; omega)
+
+theorem weekdayTryFrom_aux (v : Int) :
+    (if decide ((-2147483648) ≤ v) && decide (v ≤ 2147483647) then some v else none).bind weekdayTryFromConst
+      = Weekday.ofInt? v := by
+  by_cases h : -2147483648 ≤ v ∧ v ≤ 2147483647
+  · simp [h.1, h.2, weekdayTryFromConst_eq]
+  · rw [weekday_ofInt_none v h]
+    have : (decide (-2147483648 ≤ v) && decide (v ≤ 2147483647)) = false := by
+      simp only [Bool.and_eq_false_iff, decide_eq_false_iff_not]; omega
+    simp [this]
+
+theorem weekdayTryFromI8_eq (v : Int) : weekdayTryFromI8 v = Weekday.ofInt? v := weekdayTryFrom_aux v
+theorem weekdayTryFromI16_eq (v : Int) : weekdayTryFromI16 v = Weekday.ofInt? v := weekdayTryFrom_aux v
+theorem weekdayTryFromI32_eq (v : Int) : weekdayTryFromI32 v = Weekday.ofInt? v := weekdayTryFrom_aux v
+theorem weekdayTryFromI64_eq (v : Int) : weekdayTryFromI64 v = Weekday.ofInt? v := weekdayTryFrom_aux v
+theorem weekdayTryFromI128_eq (v : Int) : weekdayTryFromI128 v = Weekday.ofInt? v := weekdayTryFrom_aux v
+theorem weekdayTryFromIsize_eq (v : Int) : weekdayTryFromIsize v = Weekday.ofInt? v := weekdayTryFrom_aux v
+theorem weekdayTryFromU8_eq (v : Int) : weekdayTryFromU8 v = Weekday.ofInt? v := weekdayTryFrom_aux v
+theorem weekdayTryFromU16_eq (v : Int) : weekdayTryFromU16 v = Weekday.ofInt? v := weekdayTryFrom_aux v
+theorem weekdayTryFromU32_eq (v : Int) : weekdayTryFromU32 v = Weekday.ofInt? v := weekdayTryFrom_aux v
+theorem weekdayTryFromU64_eq (v : Int) : weekdayTryFromU64 v = Weekday.ofInt? v := weekdayTryFrom_aux v
+theorem weekdayTryFromU128_eq (v : Int) : weekdayTryFromU128 v = Weekday.ofInt? v := weekdayTryFrom_aux v
+theorem weekdayTryFromUsize_eq (v : Int) : weekdayTryFromUsize v = Weekday.ofInt? v := weekdayTryFrom_aux v
+
 /-! ### names and `Display` -/
 
 theorem monthName_eq (m : Month) : monthName m = m.name := by cases m <;> rfl
@@ -699,7 +741,7 @@ theorem monthIterNext_eq (r : RangeIncl) :
     monthIterNext r = (match r.next with
       | (none, r') => some (none, r')
       | (some n, r') => (Month.ofInt? n).map fun m => (some m, r')) := by
-  simp only [monthIterNext, bind, Option.bind, pure]
+  simp only [monthIterNext, monthTryFromU32_eq, bind, Option.bind, pure]
   rcases h : r.next with ⟨_ | n, r'⟩
   · rfl
   · simp only []; cases Month.ofInt? n <;> rfl
@@ -708,7 +750,7 @@ theorem monthIterNextBack_eq (r : RangeIncl) :
     monthIterNextBack r = (match r.nextBack with
       | (none, r') => some (none, r')
       | (some n, r') => (Month.ofInt? n).map fun m => (some m, r')) := by
-  simp only [monthIterNextBack, bind, Option.bind, pure]
+  simp only [monthIterNextBack, monthTryFromU32_eq, bind, Option.bind, pure]
   rcases h : r.nextBack with ⟨_ | n, r'⟩
   · rfl
   · simp only []; cases Month.ofInt? n <;> rfl
